@@ -13,6 +13,7 @@ import tempfile
 
 V = "/verif"
 PROPS = [f"C{i:02d}" for i in range(1, 21)]
+COLS = os.environ.get("MATRIX_COLS", "").split(",") if os.environ.get("MATRIX_COLS") else None   # redo these columns only
 
 
 def one(name):
@@ -23,7 +24,7 @@ def one(name):
         if r.returncode:
             return name, {"_patch": r.stdout + r.stderr}
         res = {}
-        for p in PROPS:
+        for p in (COLS or PROPS):
             env = dict(os.environ, VERIF_REPO=d, VERIF_NOEVID="1")
             out = subprocess.run([f"{V}/check", p], cwd=V, env=env, capture_output=True, text=True)
             rules = sorted(set(re.findall(r"^  (R-[\w-]+)", out.stdout, re.M)))
@@ -39,15 +40,18 @@ def main():
         names = [n for n in names if n in sys.argv[1:]]
     M = {}
     path = f"{V}/seeded/MATRIX.json"
-    if os.path.exists(path) and len(sys.argv) > 1:
+    if os.path.exists(path) and (len(sys.argv) > 1 or COLS):
         M = json.load(open(path))
-    with cf.ThreadPoolExecutor(6) as ex:
+    old = dict(M)
+    with cf.ThreadPoolExecutor(int(os.environ.get('MATRIX_JOBS', '6'))) as ex:
         for name, res in ex.map(one, names):
+            if COLS and name in old:
+                res = dict(old[name], **res)
             M[name] = res
             own = name.split("-")[0]
             hits = {p: v for p, v in res.items() if p.startswith("C") and v[0] != 0}
             print(name, "own:", res.get(own), "others:", {p: v for p, v in hits.items() if p != own})
-    if os.path.exists(path) and len(sys.argv) > 1:
+    if os.path.exists(path) and len(sys.argv) > 1 and not COLS:
         cur = json.load(open(path))      # merge with what a concurrent run may have written meanwhile
         cur.update({n: M[n] for n in names if n in M})
         M = cur
